@@ -75,10 +75,9 @@ def run(tier, seed):
                                'a': base.res.get('msg'), 'b': q.res.get('msg')})
             elif base.ok:
                 pairs.append((base, q))
-    reports, st, cases = equiv.explore(pairs, slack=True, maxlen=9 if quick else 14, budget=60000 if quick else 1000000, timeout=400 if quick else 3000)
+    reports, st, cases = equiv.explore(pairs, slack=True, maxlen=9 if quick else 14, budget=60000 if quick else 1000000, timeout=1600 if quick else 9000)
     for e in st['errors']:
-        if 'timeout' not in str(e):
-            chk.machinery_error('TLC(Equiv): ' + str(e)[:1500])
+        chk.machinery_error('TLC(Equiv): ' + str(e)[:1500])
     kinds = collections.Counter()
     nconf = 0
     for (a, b), reps in zip(pairs, reports):
